@@ -557,6 +557,8 @@ class ExprMixin:
     def as_vlist(self, v, elem=None):
         if isinstance(v, VList):
             return v
+        if isinstance(v, VOpt) and not self.feasible(v.is_none):       # narrowed by the path (x is not None)
+            return self.as_vlist(v.val, elem)
         if isinstance(v, tuple):
             v = list(v)
         if isinstance(v, list):
